@@ -36,6 +36,9 @@ GNext ==
      \* backend ahead: n = 1 for confirmations, the spender variant for spends
      \/ \E w \in 1..2 : \E t \in ConfTargets : HistConfAhead(t) /\ Rec(Ev("HistConfAhead", 0, t, 1, 0, <<>>, 0))
      \/ \E o \in SpendTargets : \E v \in 1..2 : HistSpendAhead(o) /\ Rec(Ev("HistSpendAhead", 0, o, v, 0, <<>>, 0))
+     \* ProcessRelevantSpendTx: t = the outpoint; ahead: n = the spender variant
+     \/ \E w \in 1..2 : \E p \in Outs : RelHit(p) # {} /\ RelevantSpend(p) /\ Rec(Ev("RelSpend", 0, p, 0, 0, <<>>, 0))
+     \/ \E p \in Outs : \E v \in 1..2 : RelHit(p) # {} /\ RelevantSpendAhead(p) /\ Rec(Ev("RelSpendAhead", 0, p, v, 0, <<>>, 0))
 GSpec == GInit /\ [][GNext]_<<vars, hist>>
 
 Dump == Len(hist) = MaxHist =>
